@@ -55,7 +55,14 @@ def _nf_tuple(mod, fn, **options):
 
 def _nf(mod, fn, **options):
     """pin of the path normal form of a whole function"""
-    text = pathnorm_c18._fmt(_nf_tuple(mod, fn, **options))
+    return _pin(_nf_tuple(mod, fn, **options))
+
+
+def _pin(nf):
+    """sha256 of the normal form with the names of locals made canonical (renaming a local or a
+    private helper changes nothing; the extractors below work on the form with the source's names
+    but never look a name up: they go by role)"""
+    text = pathnorm_c18._fmt(pathnorm_c18.alpha_normal(nf))
     return "sha256:" + hashlib.sha256(text.encode()).hexdigest()
 
 
@@ -165,11 +172,24 @@ def _writer_loop_facts(mod, fn):
     except pathnorm_c18.Unsupported as e:
         raise Unsupported("normal form of the writer: %s" % e)
     ws = list(_writes(nf))
-    joins = [_lit(j[2]) for d, c, a in ws if d == 2
+    # inside the loop over the cases (at any depth: the loop over the dimensions of a case may be
+    # there or, for the one dimension a case has, not)
+    joins = [_lit(j[2]) for d, c, a in ws if d >= 1
              for j in _sub(a, lambda v: v[:2] == ("M", "join") and v[2][0] == "K")]
-    dim = [_lit(a) for d, c, a in ws if d == 2 and a[0] == "K"
-           and any("'univariate'" in at and not pol for at, pol, _a in c)]
-    lab = [_lit(a[1][0]) for d, c, a in ws if d == 1 and a[0] == "FSTR" and len(a[1]) == 2
+    # what is written after a dimension unless `univariate`: the literal that a case line gets MORE of
+    # on the paths where univariate is false than on those where it is true
+    import collections
+    per_path = {}
+    for d, c, a in ws:
+        if d >= 1 and a[0] == "K":
+            per_path.setdefault(c, collections.Counter())[_lit(a)] += 1
+    uni = [cnt for c, cnt in per_path.items()
+           if any(_a == ("S", "univariate") and pol for at, pol, _a in c)]
+    multi = [cnt for c, cnt in per_path.items()
+             if any(_a == ("S", "univariate") and not pol for at, pol, _a in c)]
+    dim = [lit for cnt in multi for lit, k in cnt.items()
+           if k > max([u.get(lit, 0) for u in uni] or [0])]
+    lab = [_lit(a[1][0]) for d, c, a in ws if d >= 1 and a[0] == "FSTR" and len(a[1]) == 2
            and a[1][0][0] == "K" and a[1][1][0] == "FMT"]
     _need(joins and dim and lab, "writer: case loop writes not found")
     return {"writer_value_sep": _one(joins, "writer: value separator"),
@@ -237,8 +257,7 @@ def _writer(fn, frags, mod):
     form of the whole writer: which `file.write` of a line starting with "@" happens on which paths,
     in which order, wherever the text of the line is computed"""
     nf = _nf_tuple(mod, fn)
-    frags["nf.write_dataframe_to_tsfile"] = "sha256:" + hashlib.sha256(
-        pathnorm_c18._fmt(nf).encode()).hexdigest()
+    frags["nf.write_dataframe_to_tsfile"] = _pin(nf)
     ok = [p for p in nf if p[2][0] == "return"]
     _need(ok, "writer: no successful path")
     seqs = []
@@ -326,8 +345,7 @@ def _parser(fn, frags, mod):
     _need(isinstance(d, ast.Constant) and isinstance(d.value, str), "parser: missing default")
     facts["parser_missing_default"] = d.value
     nf = _nf_tuple(mod, fn, assume_false=("timestamps",))
-    frags["nf.load_from_tsfile_to_dataframe"] = "sha256:" + hashlib.sha256(
-        pathnorm_c18._fmt(nf).encode()).hexdigest()
+    frags["nf.load_from_tsfile_to_dataframe"] = _pin(nf)
     body = _line_loop(nf)
 
     def sw(c):
@@ -356,8 +374,18 @@ def _parser(fn, frags, mod):
                 _need(recv[:2] == ("M", "lower") and recv[2][:2] == ("M", "strip"),
                       "parser: normalisation")
     # data lines: only once @data has been seen (a line matching no tag before that falls through)
+    # the flag(s) that the line matching the LAST tag of the chain (the data tag) sets to True
+    last_tag = tags[-1]
+    set_by_data_tag = None
+    for path in header_paths:
+        if any(sw(c) and c[1] and _lit(c[2][3][0]) == last_tag for c in path[0]) \
+                and path[2] == ("next",):
+            names = {nm for nm, val in path[3] if val == ("K", "True")}
+            set_by_data_tag = names if set_by_data_tag is None else set_by_data_tag & names
+    _need(set_by_data_tag, "parser: the data tag sets no flag")
+
     def started(path):
-        return any(c[1] and c[2][0] == "LS" and c[2][-1] == "data_started" for c in path[0])
+        return any(c[1] and c[2][0] == "LS" and c[2][-1] in set_by_data_tag for c in path[0])
     live = [p for p in data_paths if p[2] == ("next",) and started(p)]
     _need(live, "parser: no data branch")
     for path in data_paths:
@@ -432,7 +460,7 @@ def _load_dataset(fn, frags, mod):
     partitions are read for split=None, from the files that are loaded on that path
     (`<name>_<PARTITION>.ts`, whatever the loop variable or the spelling of the literal is)"""
     nf = _nf_tuple(mod, fn)
-    frags["nf._load_dataset"] = "sha256:" + hashlib.sha256(pathnorm_c18._fmt(nf).encode()).hexdigest()
+    frags["nf._load_dataset"] = _pin(nf)
     both = [p for p in nf if p[2][0] == "return"
             and any(c[1] and c[2] == ("CMP", "Is", ("S", "split"), ("K", "None")) for c in p[0])]
     _need(both, "_load_dataset: no path for split=None")
